@@ -15,6 +15,6 @@ esac
 rc=0
 for p in "$@"; do
   echo "=== $p on $SPEC"
-  WALLEYE_REPO=$W /verif/check $p --tier ${TIER:-quick} 2>&1 | grep -E "^VIOLATION|^  family=|^KNOWN|HARNESS|violations=" | cut -c1-600 | head -${LINES_MAX:-8}
+  VERIF_OUT_DIR=/tmp/wv_out WALLEYE_REPO=$W /verif/check $p --tier ${TIER:-quick} 2>&1 | grep -E "^VIOLATION|^  family=|^KNOWN|HARNESS|violations=" | cut -c1-600 | head -${LINES_MAX:-8}
 done
 git -C /repo worktree remove --force $W; git -C /repo worktree prune
